@@ -8,6 +8,7 @@
 #include <fcppt/container/grid/clamped_min.hpp>
 #include <fcppt/container/grid/clamped_sup.hpp>
 #include <fcppt/container/grid/clamped_sup_signed.hpp>
+#include <fcppt/container/grid/comparison.hpp>
 #include <fcppt/container/grid/dim.hpp>
 #include <fcppt/container/grid/end_position.hpp>
 #include <fcppt/container/grid/fill.hpp>
@@ -34,6 +35,7 @@
 #include <fcppt/container/grid/range_dim.hpp>
 #include <fcppt/container/grid/range_size.hpp>
 #include <fcppt/container/grid/resize.hpp>
+#include <fcppt/container/grid/static_row.hpp>
 #include <fcppt/container/grid/sup.hpp>
 #include <fcppt/math/dim/comparison.hpp>
 #include <fcppt/math/dim/contents.hpp>
@@ -46,8 +48,11 @@
 #include <fcppt/optional/reference.hpp>
 #include <fcppt/reference.hpp>
 
+#include <algorithm>
 #include <cstddef>
+#include <memory>
 #include <string>
+#include <utility>
 #include <vector>
 
 namespace
@@ -446,6 +451,105 @@ struct gr
     return grid_str(g);
   }
 
+  // three objects, a history of special-member calls, then all three printed (a moved-from object only by its size())
+  static std::string regs_line(std::vector<ivec> const &ds, std::vector<ll> const &ks, std::string const &prog)
+  {
+    std::vector<std::unique_ptr<G>> slots;
+    std::vector<bool> moved(3, false);
+    for (std::size_t i = 0; i < 3; ++i)
+      slots.push_back(std::make_unique<G>(mk(ds[i], ks[i])));
+    std::size_t at = 0;
+    while (prog != "-" && at <= prog.size())
+    {
+      std::size_t const dot = std::min(prog.find('.', at), prog.size());
+      std::string const op = prog.substr(at, dot - at);
+      at = dot + 1;
+      if (op.size() != 4 || op[2] < '0' || op[2] > '9' || op[3] < '0' || op[3] > '9')
+        return "bad-op";
+      std::size_t const d = static_cast<std::size_t>(op[2] - '0'), s = static_cast<std::size_t>(op[3] - '0');
+      std::string const kind = op.substr(0, 2);
+      if (d >= 3 || s >= 3)
+        return "bad-op";
+      if (kind == "cc")
+      {
+        if (d == s || moved[s])
+          return "bad-op";
+        G const &src = *slots[s];
+        slots[d] = std::make_unique<G>(src);
+        moved[d] = false;
+      }
+      else if (kind == "mc")
+      {
+        if (d == s || moved[s])
+          return "bad-op";
+        slots[d] = std::make_unique<G>(std::move(*slots[s]));
+        moved[d] = false;
+        moved[s] = true;
+      }
+      else if (kind == "ca")
+      {
+        if (moved[s])
+          return "bad-op";
+        G const &src = *slots[s];
+        G &dst = *slots[d];
+        dst = src;
+        moved[d] = false;
+      }
+      else if (kind == "ma")
+      {
+        G &src = *slots[s];
+        G &dst = *slots[d];
+        if (d != s && moved[s])
+          return "bad-op";
+        dst = std::move(src);
+        if (d != s)
+        {
+          moved[d] = false;
+          moved[s] = true;
+        }
+      }
+      else if (kind == "sm" || kind == "sf")
+      {
+        G &a = *slots[d];
+        G &b = *slots[s];
+        if (kind == "sm")
+          a.swap(b);
+        else
+          swap(a, b); // grid::swap by argument-dependent lookup
+        bool const t = moved[d];
+        moved[d] = moved[s];
+        moved[s] = t;
+      }
+      else
+        return "bad-op";
+    }
+    std::string r;
+    for (std::size_t i = 0; i < 3; ++i)
+      r += std::string(i ? " ; " : "") + (moved[i] ? "moved size=" + ut::str(slots[i]->size()) : grid_str(*slots[i]));
+    return r;
+  }
+
+  static G from_cells(ivec const &d, ivec const &c)
+  {
+    G g(ut::to_dim(d), 0L);
+    std::size_t i = 0;
+    for (auto it = g.begin(); it != g.end() && i < c.size(); ++it, ++i)
+      *it = static_cast<long>(c[i]);
+    return g;
+  }
+
+  static std::string cmp_line(ivec const &d1, ivec const &c1, ivec const &d2, ivec const &c2)
+  {
+    G const a{from_cells(d1, c1)};
+    G const b{from_cells(d2, c2)};
+    auto const bit = [](bool const x) { return std::string(x ? "1" : "0"); };
+    // operands that are the same object
+    if (!(a == a) || a != a || a < a || a > a || !(a <= a) || !(a >= a))
+      return "self-comparison-mismatch";
+    return "eq=" + bit(a == b) + " ne=" + bit(a != b) + " lt=" + bit(a < b) + " gt=" + bit(a > b) + " le=" + bit(a <= b) +
+           " ge=" + bit(a >= b);
+  }
+
   static std::string clamp_line(ivec const &d, ivec const &p)
   {
     auto const sp = st::to_pos(p);
@@ -572,6 +676,16 @@ std::string handle_grid(std::vector<std::string> const &t)
   }
   if (op == "fill")
     return R::fill_line(d, vh::to_ll(t[2]), vh::to_ll(t[3]));
+  if (op == "regs")
+    return R::regs_line({d, vh::int_list(t[3]), vh::int_list(t[5])}, {vh::to_ll(t[2]), vh::to_ll(t[4]), vh::to_ll(t[6])}, t[7]);
+  if (op == "cmp")
+  {
+    ivec const c1 = vh::int_list(t[2]), d2 = vh::int_list(t[3]), c2 = vh::int_list(t[4]);
+    auto const prod = [](ivec const &v) { ll r = 1; for (ll x : v) r *= x; return r; };
+    if (static_cast<ll>(c1.size()) != prod(d) || static_cast<ll>(c2.size()) != prod(d2))
+      return "bad-op";
+    return R::cmp_line(d, c1, d2, c2);
+  }
   if (op == "clamp")
     return R::clamp_line(d, vh::int_list(t[2]));
   if (op == "clamps")
@@ -592,6 +706,46 @@ std::string handle_grid(std::vector<std::string> const &t)
     return digest_tuples(konst(N, -m), plus(d, m + 1), [&g, &d, &smin](ivec const &ssup) { return R::refsub_line(g, d, smin, ssup); });
   }
   return "bad-op";
+}
+
+// static_row constructor: W cells per row, H rows, row y = enc k (0,y) ... enc k (W-1,y)
+template <std::size_t... Xs>
+auto make_row(ll const k, ll const y, std::index_sequence<Xs...>)
+{
+  return grid::static_row(static_cast<long>(enc(k, ivec{static_cast<ll>(Xs), y}))...);
+}
+
+template <std::size_t W, std::size_t... Ys>
+std::string rows_wh(ll const k, std::index_sequence<Ys...>)
+{
+  using R = gr<2>;
+  typename R::G const g(make_row(k, static_cast<ll>(Ys), std::make_index_sequence<W>{})...);
+  return R::grid_str(g);
+}
+
+template <std::size_t W>
+std::string rows_w(std::size_t const h, ll const k)
+{
+  switch (h)
+  {
+  case 1: return rows_wh<W>(k, std::make_index_sequence<1>{});
+  case 2: return rows_wh<W>(k, std::make_index_sequence<2>{});
+  case 3: return rows_wh<W>(k, std::make_index_sequence<3>{});
+  case 4: return rows_wh<W>(k, std::make_index_sequence<4>{});
+  default: return "bad-op";
+  }
+}
+
+std::string rows_line(std::size_t const w, std::size_t const h, ll const k)
+{
+  switch (w)
+  {
+  case 1: return rows_w<1>(h, k);
+  case 2: return rows_w<2>(h, k);
+  case 3: return rows_w<3>(h, k);
+  case 4: return rows_w<4>(h, k);
+  default: return "bad-op";
+  }
 }
 
 // shape check shared with the Lean driver: which tokens are lists, all of the same length 1..3
@@ -638,6 +792,12 @@ std::string handle(std::vector<std::string> const &t)
       default: return "bad-op";
       }
     }
+    if (op == "rows")
+    {
+      if (t.size() != 4 || t[1].find('-') != std::string::npos || t[2].find('-') != std::string::npos)
+        return "bad-op";
+      return rows_line(static_cast<std::size_t>(vh::to_ull(t[1])), static_cast<std::size_t>(vh::to_ull(t[2])), vh::to_ll(t[3]));
+    }
     std::vector<std::size_t> lists;   // list arguments that must be non-negative
     std::vector<std::size_t> slists;  // signed list arguments
     std::size_t want = 0;
@@ -650,6 +810,8 @@ std::string handle(std::vector<std::string> const &t)
     else if (op == "apply" && t.size() == 5) { lists = {1, 3}; want = 5; }
     else if (op == "apply" && t.size() == 7) { lists = {1, 3, 5}; want = 7; }
     else if (op == "fill") { lists = {1}; want = 4; }
+    else if (op == "regs") { lists = {1, 3, 5}; want = 8; }
+    else if (op == "cmp") { lists = {1, 3}; want = 5; }
     else if (op == "clamp") { lists = {1}; slists = {2}; want = 3; }
     else if (op == "clamps") { lists = {1}; want = 3; }
     else if (op == "refsub") { lists = {1}; slists = {3, 4}; want = 5; }
